@@ -32,10 +32,17 @@ LOCK_CLASS_PATTERNS = [
 ]
 
 
+# crate-local newtypes around a plain i64 (`struct UsedWeight(i64)`): the same lock class as the bare integer.  Filled from
+# the ADT table when a fact base is loaded.
+I64_NEWTYPES = set()
+
+
 def lock_class(data_ty):
     for name, pat in LOCK_CLASS_PATTERNS:
         if pat.search(data_ty):
             return name
+    if data_ty in I64_NEWTYPES:
+        return "WU"
     return "?" + data_ty
 
 
@@ -724,6 +731,10 @@ class Facts:
         self.consts = self.raw["consts"]
         self.adts = self.raw["adts"]
         self.nodes = self.raw["graph"]["nodes"]
+        I64_NEWTYPES.clear()
+        for an, ad in self.adts.items():
+            if ad["kind"] == "Struct" and len(ad["variants"]) == 1 and [fl["ty"] for fl in ad["variants"][0]["fields"]] == ["i64"]:
+                I64_NEWTYPES.add(an)
         self._by_def = defaultdict(list)
         for nd in self.nodes:
             self._by_def[nd["def"]].append(nd["id"])
